@@ -54,6 +54,7 @@ func infractionPairing(c *Ctx) {
 			c.Check(!bad, fk(f, "queued-implies-scheduled"), sq, "after the queued value is stored a nil return is reached only through AddToInfractionUpdateSchedule")
 		}
 	}
+	c.KeyShapeIs("pt.InfractionScheduledTimeToConsumerIdsKey", "Const(InfractionScheduledTimeToConsumerIdsKeyName)·Time(param:updateTime)", "the schedule is scanned in time order and the scan stops at the first future entry")
 	// "equal request" means equal in every parameter: the helpers compare all fields
 	for _, h := range []string{"pk.compareInfractionParameters", "pk.compareSlashJailParameters"} {
 		if f := c.Fn(h); f != nil {
